@@ -9,12 +9,12 @@
 (* binary is run on each (B4) and the outcome is judged by Outcome.        *)
 (***************************************************************************)
 EXTENDS Naturals, Sequences, FiniteSets, TLC, Json, IOUtils
-Shapes == {"len0", "len1", "kminus1", "k", "wminus1", "w", "allN", "Nfirst", "Nlast"}
-Cmds == {"oligo-mmap", "oligo-batch", "oligo-stdin", "cgr", "ocgr", "ocgr-counts", "cov", "min-s2m-w0", "min-s2m-w", "min-m2s-w0", "min-m2s-w", "ctr"}
+Shapes == {"len0", "len1", "oneN", "kminus1", "k", "wminus1", "w", "allN", "Nfirst", "Nlast"}
+Cmds == {"oligo-mmap", "oligo-batch", "oligo-stdin", "oligo-mmap-H", "oligo-batch-H", "cov-alt", "cgr", "ocgr", "ocgr-counts", "cov", "min-s2m-w0", "min-s2m-w", "min-m2s-w0", "min-m2s-w", "ctr"}
 NMax == atoi(IOEnv.VN)
 Scenarios == [cmd : Cmds, shapes : UNION {[1..n -> Shapes] : n \in 0..NMax}, threads : {1, 3}]
 
-HasOther(sh) == \E i \in 1..Len(sh) : sh[i] \in {"allN", "Nfirst", "Nlast"}
+HasOther(sh) == \E i \in 1..Len(sh) : sh[i] \in {"oneN", "allN", "Nfirst", "Nlast"}
 RecordOriented(c) == c \notin {"min-m2s-w0", "min-m2s-w", "ctr"}
 \* the run may refuse (non-zero status / diagnostic) only here
 MayRefuse(s) == s.cmd = "cgr" /\ HasOther(s.shapes)
@@ -24,7 +24,8 @@ Outcome(s, e) ==
   /\ e.hung = 0
   /\ IF MayRefuse(s) THEN TRUE
      ELSE /\ e.crashed = 0 /\ e.exit = 0
-          /\ RecordOriented(s.cmd) => e.rows = Len(s.shapes)
+          \* one row per record; a requested header is exactly one more line
+          /\ RecordOriented(s.cmd) => e.rows = Len(s.shapes) + (IF s.cmd \in {"oligo-mmap-H", "oligo-batch-H"} THEN 1 ELSE 0)
 
 VARIABLE sc
 Init == sc \in Scenarios
